@@ -6,12 +6,12 @@ import time
 from . import common as C
 
 ALL_LISTS = ["P1", "P2", "P3", "P4", "P5", "P6", "P7", "P8", "P9", "P10", "P11", "F1", "F2", "F3", "F4", "F5", "F6", "F7", "F8", "F9", "F10", "V1", "V2", "V3", "V4", "V5", "V6", "V7",
-             "V8", "V9", "V10", "V11", "V12", "V13", "V14", "V15", "M1", "M2", "M3", "M4"]
-TRACKED = ["P3", "P4", "P5", "P8", "F3", "F4", "F5", "F6", "F9", "V3", "V4", "V7", "V9", "V10", "V12", "M2", "M3"]
+             "V8", "V9", "V10", "V11", "V12", "V13", "V14", "V15", "V16", "M1", "M2", "M3", "M4"]
+TRACKED = ["P3", "P4", "P5", "P8", "F3", "F4", "F5", "F6", "F9", "V3", "V4", "V7", "V9", "V10", "V12", "V16", "M2", "M3"]
 # lists of trivial value types for the "never clobbered alive" clause of C06 (observable through the values only)
 C06_TRIVIAL = ["P1", "F1", "V1", "V2", "V5", "M1"]
-ALIGNED = ["P2", "P6", "P10", "F2", "F7", "F10", "V1", "V3", "V5", "V6", "V7", "V8", "V9", "V13", "V15", "M1", "M4"]
-VARYING = ["V1", "V2", "V3", "V4", "V5", "V6", "V7", "V8", "V9", "V13", "V14", "V15", "M1", "M2", "M3", "M4"]
+ALIGNED = ["P2", "P6", "P10", "F2", "F7", "F10", "V1", "V3", "V5", "V6", "V7", "V8", "V9", "V13", "V15", "V16", "M1", "M4"]
+VARYING = ["V1", "V2", "V3", "V4", "V5", "V6", "V7", "V8", "V9", "V13", "V14", "V15", "V16", "M1", "M2", "M3", "M4"]
 TRAIT_KINDS = ["T000", "T001", "T010", "T011", "T100", "T101", "T110", "T111"]
 
 
@@ -143,7 +143,7 @@ def spec(prop, tier):
                 wide_runs(["F3", "F6", "V3", "V10", "M2", "V1"], tier, depth=5) + \
                 big_runs(["F3", "V3", "V9", "M2"], tier, depth=5) + \
                 pair_runs(["F3", "V3"], ["AE", "NP"], tier, 5) + pair_runs(["P3", "P5", "F4", "F6", "V7", "V10", "M2", "M3"], ["NP"], tier, 4) + \
-                elem_runs(["F3", "V3"], ["NP"], tier, 3) + elem_runs(["P5", "F4", "F6", "V10", "M2", "V7"], ["NP"], tier, 2)
+                elem_runs(["F3", "V3"], ["NP"], tier, 3) + elem_runs(["P5", "F4", "F6", "V10", "M2", "V7"], ["NP"], tier, 2) + elem_runs(["V16", "V9"], ["AE"], tier, 3)
         return hist_runs(TRACKED + C06_TRIVIAL, tier, allocs=("AE",), nmax=4, cmax=3, bmax=6, depth=6) + \
             pair_runs(TRACKED + C06_TRIVIAL, ["AE", "NP", "PP"], tier, 5) + elem_runs(TRACKED, ["AE", "NP", "PP"], tier, 3)
     if prop == "C07":
@@ -173,8 +173,10 @@ def spec(prop, tier):
         if q:
             return hist_runs(["F1", "V1", "V3", "M1"], tier, mode="c10", depth=4) + \
                 hist_runs(["P1", "F3", "V2", "V5", "V7", "M2"], tier, mode="c10", depth=3) + \
-                big_runs(["F1", "V1", "V3", "M1"], tier, mode="c10", depth=3)
-        return hist_runs(ALL_LISTS, tier, allocs=("AE", "NP"), mode="c10", nmax=4, cmax=3, bmax=6, depth=4)
+                big_runs(["F1", "V1", "V3", "M1"], tier, mode="c10", depth=3) + \
+                [R(l, "AE", "c10", depth=3, junk=1, fault_ops=2) for l in ("F1", "F3", "V1", "V3")]  # reserve that fails, then goes on
+        return hist_runs(ALL_LISTS, tier, allocs=("AE", "NP"), mode="c10", nmax=4, cmax=3, bmax=6, depth=4) + \
+            [R(l, "AE", "c10", depth=4, junk=1, fault_ops=2) for l in ("P1", "F1", "F3", "V1", "V3", "V5", "M1", "M2")]
     if prop == "C11":
         pl = ["P1", "P3", "P4", "F1", "F3", "F4", "F5", "V1", "V3", "M2"]
         runs = [R(l, "AE", "proxy", nmax=3 if q else 4, cmax=1, bmax=4, depth=3 if q else 4, junk=1, fixed="2") for l in pl]
